@@ -35,6 +35,8 @@ def run(ctx, chk, tier="quick"):
     )
     chk.assumptions = ["numpy.interp is the bracketing linear interpolation for increasing xp",
                        "SQLite scans a table whose key is an INTEGER PRIMARY KEY (rowid alias) in key order when the query is a bare single-table SELECT"]
+    from .. import sqltypes
+    sqltypes.check(ctx, chk, "C10.O2", modules=("load",))
     load = ctx.func("load.load_data")
     # ------------------------------------------------------------ O1
     gt = ctx.func("load.populate_grid_time")
